@@ -15,6 +15,8 @@ from .compact import compact_value, decompact_value
 
 HASH_PATTERN = r'^\{"hash":"([\w\d]+)","data":(.*?)\}$'
 
+LONE_SURROGATE_RE = re.compile('[\ud800-\udfff]')
+
 # one JSON escape sequence: a backslash and what it escapes
 JSON_ESCAPE_RE = re.compile(r'\\(u[0-9a-fA-F]{4}|.)', re.DOTALL)
 
@@ -101,6 +103,9 @@ def pack(packet: PacketLike) -> str:
         separators=(",", ":"),
         ensure_ascii=False,
     )
+    # NOTE a lone surrogate (e.g. from a file name decoded with surrogateescape)
+    #   is valid in a str and in JSON, but cannot be encoded as UTF-8
+    value = LONE_SURROGATE_RE.sub(lambda m: f'\\u{ord(m.group()):04x}', value)
     value = class_escape(value)
     value = tty_escape(value)
     return hashed(value)
